@@ -558,11 +558,21 @@ func (g *jsonGen) forceBoth(root *jnode) bool {
 		return false
 	}
 	o := infos[g.r.Intn(len(infos))]
+	// the added alternative is sometimes null: present as a key, absent as a value
+	null := g.r.Chance(40)
 	if o.get("amount") < 0 {
-		o.add("amount", jobj().add("value", jstr("7")))
+		if null {
+			o.add("amount", jnull())
+		} else {
+			o.add("amount", jobj().add("value", jstr("7")))
+		}
 	}
 	if o.get("basis_points") < 0 && o.get("basisPoints") < 0 {
-		o.add("basis_points", jobj().add("value", jnum("3")))
+		if null {
+			o.add(rng.Pick(g.r, []string{"basis_points", "basisPoints"}), jnull())
+		} else {
+			o.add("basis_points", jobj().add("value", jnum("3")))
+		}
 	}
 	return true
 }
